@@ -143,7 +143,9 @@ Section Word.
   Variable ex : path -> bool.
   Variable resolve : path -> path.
   Variable mapper : path.
-  Hypothesis resolve_wf : forall p, wf_path (resolve p).
+  (* resolving keeps a well-formed path well formed (nothing is asked of it on ill-formed
+     records, which parse_path never produces; the identity resolver resolve_of [] qualifies) *)
+  Hypothesis resolve_wf : forall p, wf_path p -> wf_path (resolve p).
 
   Lemma safe_path_sound w t :
     safe_path ex resolve mapper w = Some (SOk t) ->
@@ -157,7 +159,7 @@ Section Word.
       unfold relative_to in Er. destruct (Nat.eqb _ _); [|discriminate].
       destruct (parts_after (p_parts mapper) (p_parts (resolve (word_to_path w)))) as [rest|] eqn:Ea; [|discriminate].
       inversion Er; subst r. apply rel_path_str_no_leading_slash.
-      eapply parts_after_wf; [exact Ea | apply resolve_wf].
+      eapply parts_after_wf; [exact Ea | apply resolve_wf; apply parse_path_wf].
     - intros H. inversion H; subst t.
       assert (Hns : ~ In SLASH (path_name (word_to_path w))) by (apply path_name_no_slash; apply parse_path_wf).
       split; [|intros _; exact Hns].
@@ -480,3 +482,7 @@ Qed.
 (* F13: a word that starts with the package directory as a string but is not inside it raises *)
 Lemma sibling_of_package_dir_raises : san0 T_SIB = SErr E_VALUE.
 Proof. vm_compute. reflexivity. Qed.
+
+(* the identity resolver (no symlink in the table) meets the hypothesis asked of `resolve` *)
+Lemma resolve_of_nil_wf : forall p, wf_path p -> wf_path (resolve_of [] p).
+Proof. intros p H. exact H. Qed.
